@@ -19,6 +19,22 @@ func (m *MonC10) OnEnd(w *World) []Violation {
 	log := w.Log()
 	cids := w.CIDs()
 	cidResource, tokenEvents := false, false
+	// (d') nor does a header of an HTTP response (the Location of a resource response)
+	for _, h := range w.HTTP {
+		if !h.Done {
+			continue
+		}
+		for k, vs := range h.RespHeader {
+			for _, v := range vs {
+				for _, cid := range cids {
+					if cid != "" && strings.Contains(v, cid) {
+						m.viols = append(m.viols, Violation{Property: "C10", Class: "cid_leaked_to_client", Step: w.stepOfT(h.DoneT), T: h.DoneT, Conn: -1,
+							Message: fmt.Sprintf("the %s header of the response to %s %s contains the connection id of a%d: %q", k, h.Method, h.URL, w.ActorOf(cid), v)})
+					}
+				}
+			}
+		}
+	}
 	// stimulus of each step
 	type stim struct {
 		kind string // cframe | http | token | other
